@@ -19,7 +19,7 @@ use crate::writer::*;
 use std::fmt::Write as _;
 use std::panic::{catch_unwind, AssertUnwindSafe};
 
-pub const ROUTES: &[&str] = &[R1, R2, R3, R4, R4I, R5, R6];
+pub const ROUTES: &[&str] = &[R1, R2, R3, R4, R4I, R4J, R4K, R5, R6];
 pub const NAMES: &[&str] = ROUTES;
 const MAX_CALLBACKS: u32 = 160;
 
@@ -201,7 +201,22 @@ fn check_rendering(text: &str, e: &RouteErr, out: &mut RunOut, route: &str) {
         .map(|l0| l0.split(|ch: char| !ch.is_ascii_digit()).filter(|x| !x.is_empty()).filter_map(|x| x.parse().ok()).collect())
         .unwrap_or_default();
     let quoted = content.trim_end_matches('\r');
-    let ok = nums == vec![l, c] && (quoted.is_empty() || lines.iter().skip(1).any(|x| x.trim_end_matches('\r').ends_with(quoted))) && e.rendered.contains(&e.message);
+    let mut ok = nums == vec![l, c] && (quoted.is_empty() || lines.iter().skip(1).any(|x| x.trim_end_matches('\r').ends_with(quoted))) && e.rendered.contains(&e.message);
+    // if the rendering draws carets under the quoted line, the first caret marks the reported column
+    if ok && !quoted.is_empty() {
+        if let Some(qi) = lines.iter().skip(1).position(|x| x.trim_end_matches('\r').ends_with(quoted)).map(|i| i + 1) {
+            if let Some(caret_line) = lines.get(qi + 1) {
+                if let Some(caret_byte) = caret_line.find('^') {
+                    let ql = lines[qi].trim_end_matches('\r');
+                    let content_start_chars = ql[..ql.len() - quoted.len()].chars().count();
+                    let caret_chars = caret_line[..caret_byte].chars().count();
+                    if caret_chars != content_start_chars + (c - 1) {
+                        ok = false;
+                    }
+                }
+            }
+        }
+    }
     if !ok {
         out.violate(
             "C15/4",
@@ -413,6 +428,18 @@ pub fn enumerate_faults(text: &str, root: &toml_edit::Item, single: Option<(u32,
                 // clause 3
                 if attributable {
                     out.stats.inc("oracle.location");
+                    // a table the generator wrote with its own [header] has a span (C14's mechanism): an
+                    // error raised for it must carry that span, not the fallback through its key
+                    if let Some(doc) = &sc.doc {
+                        let (npath, _, _) = to_path(&fired.path);
+                        if !fired.in_key && doc.headers.iter().any(|(p, _)| *p == npath) && resolve(root, &npath).map(|n| n.span().is_none()).unwrap_or(false) {
+                            out.violate(
+                                "C15/3",
+                                format!("C15/offending-table-has-no-span/route={route}"),
+                                format!("{route}: reader failed at {}; that table was written with its own header but reports no span, so the error is located at {s}..{en} = {:?} instead of the table\n--- text ---\n{text}", where_(), text.get(s..en)),
+                            );
+                        }
+                    }
                     let allowed = allowed_spans(root, &fired);
                     if !allowed.is_empty() && !allowed.iter().any(|a| a.start == s && a.end == en) {
                         let kind = if fired.in_key { "key" } else { fired.cb };
